@@ -123,6 +123,11 @@ pub fn compute(world: &World, trace: &[Rec], v: &Violation) -> Vec<String> {
     if edge {
         tags.push("trace:grid-edge".into());
     }
+    if let Some(rec) = trace.get(v.culprit_event) {
+        if rec.result.starts_with("err") {
+            tags.push("culprit:rejected".into());
+        }
+    }
     // undo of a deletion: are all differences outside the band that was deleted and re-inserted?
     if let Some(rec) = trace.get(v.culprit_event) {
         let band: Option<(u32, bool, i32, i32)> = match &rec.ev {
